@@ -1,1 +1,3 @@
--- stub: no theorems of C19 yet
+import WmModel.Props.C19
+#print axioms Wm.Mw.timeout_transparent
+#print axioms Wm.Mw.timeout_deadline_visible_and_restored
